@@ -220,13 +220,13 @@ def run_limited(cmd, timeout, max_out, cwd=None):
     return r, truncated
 
 
-def run_pf(prog, d, timeout=20, expect_len=0):
+def run_pf(prog, d, timeout=20, expect_bytes=0):
     p = os.path.join(d, "p.h")
     with open(p, "w") as f:
         f.write(mg.prog_text(prog))
     b = _b()
     r, truncated = run_limited([b.parse_file, "-E"] + ["-D" + x for x in mg.prog_defs(prog)] + [p], timeout,
-                               max_out=4096 + 32 * expect_len, cwd=d)
+                               max_out=4096 + 2 * expect_bytes, cwd=d)
     o = Obs()
     o.r = r
     o.tokens = tokenize(r.out)
@@ -246,7 +246,9 @@ def run_pf(prog, d, timeout=20, expect_len=0):
 def judge(prog, d, expected, timeout=20):
     """-> (verdict, obs).  verdict: None (agrees) | 'mismatch' | 'died' | 'error-exit' | 'runaway' (diverging output prefix, killed) |
     'timeout' (inconclusive)"""
-    o = run_pf(prog, d, timeout, len(expected))
+    # an output is cut off (runaway expansion) only when it is far longer than the expected one can be printed:
+    # every token with a separator, every character of a literal possibly escaped
+    o = run_pf(prog, d, timeout, sum(2 * len(str(t[1])) + 4 for t in expected))
     if o.status == "ok":
         return (None if o.tokens == expected else "mismatch"), o
     if o.status in ("timeout", "runaway"):
@@ -727,9 +729,7 @@ def _analyse(res, prog, d, verdict, o, expected, tier="thorough"):
 # ---------------------------------------------------------------------------
 
 def main(chk):
-    # DESIGN asked for 20 000 programs in the thorough tier; with ~30 % of the programs hitting one of the listed
-    # defects of the pinned tree (each hit is delta-debugged) that is ~25 min on 16 idle cores, so 6 000 for now
-    n = int(os.environ.get("C08_PROGRAMS", "0")) or chk.pick(600, 6000)
+    n = int(os.environ.get("C08_PROGRAMS", "0")) or chk.pick(600, 20000)
     chk.rule = ("one case = one macrogen program (2-8 definitions, 4-12 use statements, optional #undef/redefinition/"
                 "push_macro/pop_macro/-D); distinct = distinct SET of expansion features the independent model "
                 "observed while expanding it (argument shapes, #, ##, __VA_OPT__, suppression, rescanning, ...); "
